@@ -211,10 +211,7 @@ pub fn execute(prop: &str, sc: &RsScript, opts: &ExecOpts) -> Outcome {
             match &r.value {
                 _ if lost => out.inconclusive = true,
                 None => out.violate(prop, "scenario-timeout", "slow-requestors", "the exchange did not finish within 3600 virtual seconds".into()),
-                Some(Err(e)) => {
-                    out.inconclusive = true;
-                    out.log.push(format!("setup error: {e:#}"));
-                }
+                Some(Err(e)) => setup_failed(&mut out, prop, "slow-requestors", &sc.net, e),
                 Some(Ok(reps)) => {
                     let mut stalled = 0;
                     for (i, (rep, spec)) in reps.iter().zip(sc.requestors.iter()).enumerate() {
